@@ -516,6 +516,7 @@ def run_impl(prog, clear_cache=False):
 # ----------------------------------------------------------------------------- generator
 
 DURS_FIXED = [0, 2, 4, 8, 16, 24, 40]   # 0, 1/4, 1/2, 1, 2, 3, 5
+DURS_HUGE = [800000, 800001, 800002, 800008, 1600000, 1600001]   # 100000, 100000.125, … (still exact dyadic floats)
 GDUR_CHOICES = [2, 4, 8, 12, 16, 24, 40]
 
 
@@ -547,6 +548,8 @@ class GenConfig:
         self.max_nest = 4
         self.max_size = 60              # bound on the number of leaves of a circuit after unrolling
         self.static_durations = False   # duration/count settings only at the start of the program
+        self.p_huge = 0.0               # fraction of programs in which fixed durations may be ~10^5 (times where a relative
+                                        # floating-point tolerance exceeds the 1/8 grid: seeded change C06-m6)
         for k, v in kw.items():
             if not hasattr(self, k):
                 raise AttributeError(k)
@@ -575,6 +578,8 @@ def gen_op(rng, cfg, c, ncircs, handles_here, nhandles, force_cls=None):
         r = rng.random()
         if r < 0.6:
             dur = f'f{rng.choice(DURS_FIXED)}'
+            if getattr(cfg, '_huge', False) and rng.random() < 0.3:
+                dur = f'f{rng.choice(DURS_HUGE)}'
         elif r < 0.75:
             dur = 'g' + rng.choice('RMFS')
         elif r < 0.9:
@@ -613,6 +618,7 @@ def gen_op(rng, cfg, c, ncircs, handles_here, nhandles, force_cls=None):
 def gen_program(rng, cfg: GenConfig):
     prog = [['new', 'f1']]
     cfg._copies = set()
+    cfg._huge = cfg.p_huge > 0 and rng.random() < cfg.p_huge
     handles = [[]]      # per circuit: handles added to it
     nest_depth = [0]    # nesting depth of content
     size = [0]          # leaves of each circuit's content after unrolling nested counts (own count excluded)
